@@ -138,4 +138,7 @@ def run_verus(path, rlimit=30, seed=None, timeout=1800, extra=None):
         res.diags.append(dg)
     if vr.get("encountered-vir-error") or (not vr and res.diags):
         res.compile_error = res.compile_error or "verus front-end error"
+    # rustc errors (name resolution, type errors): nothing was verified although JSON is printed
+    if any(d.kind == "rustc" for d in res.diags) and res.verified == 0:
+        res.compile_error = res.compile_error or "rustc rejected the emitted file"
     return res
